@@ -10,6 +10,14 @@ def main(args):
             or (isinstance(ev, dict) and ev.get("engine") == "dbfiles"):
         import dbfiles
         return dbfiles.replay(p)
+    if isinstance(p.get("detail"), dict) and p["detail"].get("meta") == "closing-window":
+        import validity
+        r = validity._closing_case(p["detail"]["seed"])
+        print("property:", p.get("property"), "closing-window scenario, seed", p["detail"]["seed"])
+        print(p["detail"].get("recipe"))
+        bad = r.get("meta", {}).get(p.get("property"))
+        print(json.dumps(bad["first_difference"] if bad else {"ok": True}, indent=1))
+        return 1 if bad else 0
     if isinstance(p.get("detail"), dict) and p["detail"].get("meta") == "lock":
         import faults
         return faults.replay(p)
